@@ -190,3 +190,196 @@ pub fn sent_json(chain: &SimChain, sent: &[Sent]) -> Vec<Value> {
     }
     out
 }
+
+// ---------------------------------------------------------------------------------------------
+// Filter / index component: projection from a RAW scan of the RocksDB keyspace (not through the
+// accessors under test) plus the volatile bookkeeping exposed by `Peers::verif_dump`.
+// ---------------------------------------------------------------------------------------------
+use rocksdb::{ops::Iterate, IteratorMode};
+
+fn be64(b: &[u8]) -> u64 {
+    u64::from_be_bytes(b.try_into().unwrap())
+}
+fn be32(b: &[u8]) -> u32 {
+    u32::from_be_bytes(b.try_into().unwrap())
+}
+
+pub struct Maps {
+    pub script_raw: Vec<Vec<u8>>,
+    pub fhash: std::collections::HashMap<packed::Byte32, usize>,
+}
+
+impl Maps {
+    pub fn new(chain: &SimChain) -> Self {
+        let script_raw = chain
+            .scripts
+            .iter()
+            .map(|s| crate::storage::extract_raw_data(s))
+            .collect();
+        let fhash = chain
+            .blocks
+            .iter()
+            .map(|b| (b.filter_hash.clone(), b.id))
+            .collect();
+        Maps { script_raw, fhash }
+    }
+    /// script key: 2 * (script id, 1-based) + (0 lock | 1 type); 0 = not a world script
+    pub fn skey(&self, raw: &[u8], is_type: bool) -> i64 {
+        match self.script_raw.iter().position(|r| r.as_slice() == raw) {
+            Some(i) => 2 * (i as i64 + 1) + if is_type { 1 } else { 0 },
+            None => 0,
+        }
+    }
+    pub fn fid(&self, h: &packed::Byte32) -> i64 {
+        self.fhash.get(h).map(|i| *i as i64 + 1).unwrap_or(-1)
+    }
+}
+
+fn txid(chain: &SimChain, h: &packed::Byte32) -> i64 {
+    chain.tx_id_of(h).map(|i| i as i64 + 1).unwrap_or(-1)
+}
+
+pub fn filter_state(client: &Client, chain: &SimChain, names: &[PeerIndex]) -> Value {
+    let maps = Maps::new(chain);
+    let db = &client.storage.db;
+    let mut scripts = Vec::new();
+    let mut min_f: i64 = -1;
+    let mut mdb = Vec::new();
+    let mut cp_final = Vec::new();
+    let mut max_cp: i64 = -1;
+    let mut cells = Vec::new();
+    let mut hist = Vec::new();
+    let mut txs = Vec::new();
+    let mut hdrs = Vec::new();
+    let mut nums = Vec::new();
+    let mut meta_keys = Vec::new();
+    for (key, value) in db.iterator(IteratorMode::Start) {
+        let k: &[u8] = &key;
+        let v: &[u8] = &value;
+        match k[0] {
+            0 => {
+                let h = packed::Byte32::from_slice(&k[1..33]).unwrap();
+                txs.push(json!([txid(chain, &h), be64(&v[0..8]), be32(&v[8..12]) as i64 % (1 << 31)
+                    + if be32(&v[8..12]) == u32::MAX { 0 } else { 0 }]));
+            }
+            32 | 64 => {
+                let n = k.len();
+                let raw = &k[1..n - 16];
+                let h = packed::Byte32::from_slice(v).unwrap();
+                cells.push(json!([maps.skey(raw, k[0] == 64), be64(&k[n - 16..n - 8]), be32(&k[n - 8..n - 4]), be32(&k[n - 4..]), txid(chain, &h)]));
+            }
+            96 | 128 => {
+                let n = k.len();
+                let raw = &k[1..n - 17];
+                let h = packed::Byte32::from_slice(v).unwrap();
+                hist.push(json!([maps.skey(raw, k[0] == 128), be64(&k[n - 17..n - 9]), be32(&k[n - 9..n - 5]), be32(&k[n - 5..n - 1]), k[n - 1], txid(chain, &h)]));
+            }
+            160 => {
+                let h = packed::Byte32::from_slice(&k[1..33]).unwrap();
+                hdrs.push(json!(hid(chain, &h)));
+            }
+            192 => {
+                let h = packed::Byte32::from_slice(v).unwrap();
+                nums.push(json!([be64(&k[1..9]), hid(chain, &h)]));
+            }
+            208 => {
+                let h = packed::Byte32::from_slice(v).unwrap();
+                cp_final.push(json!(maps.fid(&h)));
+            }
+            224 => {
+                let name = &k[1..];
+                if name.starts_with(b"FILTER_SCRIPTS") {
+                    let body = &name[14..];
+                    let raw_script = &body[..body.len() - 1];
+                    let is_type = body[body.len() - 1] == 1;
+                    // the key holds the molecule Script, not the raw data
+                    let sk = match packed::Script::from_slice(raw_script) {
+                        Ok(s) => maps.skey(&crate::storage::extract_raw_data(&s), is_type),
+                        Err(_) => 0,
+                    };
+                    scripts.push(json!([sk, be64(v)]));
+                } else if name.starts_with(b"MATCHED_BLOCKS") {
+                    let start = be64(&name[14..22]);
+                    let count = u64::from_le_bytes(v[0..8].try_into().unwrap());
+                    let items: Vec<Value> = v[8..]
+                        .chunks(33)
+                        .map(|c| json!([hid(chain, &packed::Byte32::from_slice(&c[0..32]).unwrap()), c[32] == 1]))
+                        .collect();
+                    mdb.push(json!([start, count, items]));
+                } else if name == b"MIN_FILTERED_NUMBER" {
+                    min_f = u64::from_le_bytes(v.try_into().unwrap()) as i64;
+                } else if name == b"MAX_CHECK_POINT_INDEX" {
+                    max_cp = be32(v) as i64;
+                } else {
+                    meta_keys.push(String::from_utf8_lossy(name).to_string());
+                }
+            }
+            _ => {}
+        }
+    }
+    // tx index u32::MAX (fetched transactions) does not fit a TLC integer: -1
+    let txs: Vec<Value> = {
+        let mut out = Vec::new();
+        for (key, value) in db.iterator(IteratorMode::Start) {
+            if key[0] != 0 {
+                break;
+            }
+            let h = packed::Byte32::from_slice(&key[1..33]).unwrap();
+            let ti = be32(&value[8..12]);
+            out.push(json!([txid(chain, &h), be64(&value[0..8]), if ti == u32::MAX { -1 } else { ti as i64 }]));
+        }
+        let _ = txs;
+        out
+    };
+    let dump = client.peers.verif_dump();
+    let mmem = match &dump.matched_blocks {
+        Some(list) => json!(list
+            .iter()
+            .map(|(h, proved, dl)| json!([hid(chain, &h.pack()), proved, dl]))
+            .collect::<Vec<_>>()),
+        None => json!("locked"),
+    };
+    let mut pf = serde_json::Map::new();
+    for p in names {
+        let v = match dump.peers.iter().find(|(i, _)| i == p) {
+            Some((_, d)) => json!({
+                "cps": [d.check_points.0, d.check_points.1.iter().map(|h| maps.fid(h)).collect::<Vec<_>>()],
+                "latest": [d.latest_block_filter_hashes.0, d.latest_block_filter_hashes.1.iter().map(|h| maps.fid(h)).collect::<Vec<_>>()],
+                "bpr": match &d.blocks_proof_request {
+                    Some((last, hs, when, get)) => json!({"on": true, "last": hid(chain, last), "hs": hs.iter().map(|h| hid(chain, &h.pack())).collect::<Vec<_>>(), "when": ms_to_tick(*when), "get": get}),
+                    None => json!({"on": false, "last": 0, "hs": [], "when": 0, "get": false}),
+                },
+                "br": match &d.blocks_request {
+                    Some((hs, when)) => json!({"on": true, "hs": hs.iter().map(|(h, r)| json!([hid(chain, &h.pack()), r])).collect::<Vec<_>>(), "when": ms_to_tick(*when)}),
+                    None => json!({"on": false, "hs": [], "when": 0}),
+                },
+                "tpr": match &d.txs_proof_request {
+                    Some((last, hs, when)) => json!({"on": true, "last": hid(chain, last), "hs": hs.iter().map(|h| txid(chain, &h.pack())).collect::<Vec<_>>(), "when": ms_to_tick(*when)}),
+                    None => json!({"on": false, "last": 0, "hs": [], "when": 0}),
+                },
+            }),
+            None => json!({"cps": [0, []], "latest": [0, []],
+                "bpr": {"on": false, "last": 0, "hs": [], "when": 0, "get": false},
+                "br": {"on": false, "hs": [], "when": 0},
+                "tpr": {"on": false, "last": 0, "hs": [], "when": 0}}),
+        };
+        pf.insert(pname(*p), v);
+    }
+    let fetch = |list: &Vec<(packed::Byte32, u64, u64, bool, bool)>, is_tx: bool| -> Vec<Value> {
+        list.iter()
+            .map(|(h, added, first, timeout, missing)| {
+                let id = if is_tx { txid(chain, h) } else { hid(chain, h) };
+                json!([id, ms_to_tick(*added), if *first == 0 { -1 } else { ms_to_tick(*first) }, timeout, missing])
+            })
+            .collect()
+    };
+    json!({
+        "scripts": scripts, "minF": min_f, "mdb": mdb, "mmem": mmem,
+        "cpFinal": cp_final, "maxCp": max_cp,
+        "cells": cells, "hist": hist, "txs": txs, "hdrs": hdrs, "nums": nums,
+        "cached": [dump.cached_block_filter_hashes.0, dump.cached_block_filter_hashes.1.iter().map(|h| maps.fid(h)).collect::<Vec<_>>()],
+        "pf": Value::Object(pf),
+        "fetchH": fetch(&dump.fetching_headers, false), "fetchT": fetch(&dump.fetching_txs, true),
+        "meta": meta_keys,
+    })
+}
